@@ -357,6 +357,10 @@ pub fn run(tier: Tier, seed: u64) -> i32 {
                     }
                     if used == 0 {
                         uncontrolled.push("matrix card digits");
+                    } else if (used as f64) * 8.0 < (cells as f64) * 3.3219 {
+                        // a card of `cells` decimal digits carries cells*log2(10) bits; it cannot be fresh in every digit
+                        // if fewer random bits than that were drawn for it
+                        viol(&report, "matrix card digits", "draw-narrower-than-value", json!({"w": w, "h": h, "d": d, "random_bytes_drawn": used, "digits": cells}), format!("only {used} random bytes were drawn for a card of {cells} decimal digits ({:.0} bits needed)", cells as f64 * 3.3219));
                     }
                     for (i, x) in card.data().iter().enumerate() {
                         cell_values[i].insert(*x);
